@@ -528,7 +528,7 @@ def search(run: Run):
 def main():
     run = Run(
         PID,
-        ["RV.Props.C02", "RV.Bridge.Sensors"],
+        ["RV.Props.C02", "RV.Bridge.Sensors", "RV.Bridge.Geometry"],
         ["RV/Model/Sensor.lean"],
         "Lean 4 theorems over the first-failure cascade (for any list of checks) + differential correspondence of the real collectObservations with the cascade fed by an "
         "INDEPENDENT evaluation of every constraint (exact segment/sphere line of sight, atan2 angles for fields of view, masks, slew budget, tangent-cone limb test)",
